@@ -3,6 +3,7 @@ import TeaTasting.Driver.Stubs
 import TeaTasting.Spec.Sample
 import TeaTasting.Spec.Fast
 import TeaTasting.Spec.Multiplicity
+import TeaTasting.Spec.Proportion
 
 /-! Driver for the SPECIFICATION side (`Spec/*.lean`) at `ℚ`; imports nothing generated, so it
 keeps working when the regenerated model does not compile.  It evaluates the `…Exec` forms of
@@ -55,6 +56,18 @@ def handler (cmd : String) : P String := do
     match xs with
     | [m1, v1, n1, m2, v2, n2] => pure (showResult (testFromStats (Stubs.family fam) o m1 v1 n1 m2 v2 n2))
     | _ => throw "from_stats args"
+  | "sr" =>
+    let fam ← nat
+    let c ← srcfg
+    let cc ← rat
+    let ct ← rat
+    let r := sampleRatioTest (Stubs.family fam) Stubs.binomStub c cc ct
+    pure (showRats [r.control, r.treatment, r.pvalue])
+  | "binom" =>
+    let n ← nat
+    let p ← rat
+    let k ← nat
+    pure (showRat (binomTwoSided n p k))
   | "mult" =>
     let procName ← str
     let a ← rat
